@@ -512,7 +512,10 @@ RunResult run_plan(const Plan &p, Stats *st, std::vector<uint64_t> *nt_pairs) {
                         if (got != before) { set_viol(V, "extraction_differs", site, "the target string changed although extraction threw ST::unicode_error"); break; }
                     } else {
                         if (exb != exa) { set_viol(V, "extraction_differs", site, std::string("ST::string extraction ended with ") + EXN[exb] + ", std::basic_string extraction with " + EXN[exa]); break; }
-                        if (exb == X_NONE && got != want) { set_viol(V, "extraction_differs", site, "extracted token " + first_diff(got, want)); break; }
+                        // when no token could be extracted a std::basic_string target is either erased or (sentry failed) left untouched:
+                        // both outcomes are accepted for the ST::string target
+                        const bool no_token = tok.empty() && ia.fail();
+                        if (exb == X_NONE && got != want && !(no_token && got == before)) { set_viol(V, "extraction_differs", site, "extracted token " + first_diff(got, want)); break; }
                     }
                     if (ia.rdstate() != ib.rdstate()) { set_viol(V, "extraction_differs", site, "stream state bits differ from those after a std::basic_string extraction"); break; }
                     if (a.consumed() != b.consumed()) { set_viol(V, "extraction_differs", site, "units left unread differ from a std::basic_string extraction"); break; }
